@@ -3,7 +3,7 @@
    instantiated with them. *)
 From Coq Require Import List ZArith Lia Bool.
 From RG.Base Require Import Outcome GoSlice.
-From RG.Adapter Require Import Str Model Conc.
+From RG.Adapter Require Import Str Model Conc NewEngine.
 From RGW Require Import Gen_Adapter Inst_Adapter.
 Import ListNotations.
 Local Open Scope Z_scope.
@@ -112,6 +112,73 @@ Theorem C19_concurrent_loaded_once :
 Proof. exact gen_concurrent_loaded_once. Qed.
 Print Assumptions C19_concurrent_loaded_once.
 
+(* newEngine after the LoadContext (regenerated: the switch over -rules / -e with its loop, reads, loads and error wrapping)
+   IS the specification, for all flag strings, all file systems and all engines: *)
+Theorem C19_new_engine_tail_is_spec :
+  forall flagRules flagE read_file load,
+    gen_new_engine_tail flagRules flagE read_file load = Ok (new_engine_spec read_file load gen_e_text flagRules flagE).
+Proof. exact gen_new_engine_tail_is_spec. Qed.
+Print Assumptions C19_new_engine_tail_is_spec.
+
+(* -rules: every named file (names trimmed, as split at commas) is read and loaded exactly once, in the order of the flag,
+   under the name it was read from, whatever -e says *)
+Theorem C19_rules_files_loaded_once_in_order :
+  forall flagRules flagE read_file load,
+    flagRules <> [] -> all_fine read_file load (names_of flagRules) ->
+    gen_new_engine_tail flagRules flagE read_file load
+    = Ok (NEDone (map (fun f => (f, contents read_file f)) (names_of flagRules))).
+Proof.
+  intros. rewrite gen_new_engine_tail_is_spec. f_equal. now apply rules_files_loaded_once_in_order.
+Qed.
+Print Assumptions C19_rules_files_loaded_once_in_order.
+
+(* the first file that cannot be read or loaded ends the load: the files before it were loaded, none after it is touched,
+   and the error names the stage (`read rules file: ` / `parse rules file: ` + the cause) *)
+Theorem C19_first_failure_ends_the_load :
+  forall flagRules flagE read_file load l msg,
+    flagRules <> [] -> gen_new_engine_tail flagRules flagE read_file load = Ok (NEFail l msg) ->
+    exists before f after, names_of flagRules = before ++ f :: after
+      /\ l = map (fun g => (g, contents read_file g)) before
+      /\ ((exists e, read_file f = inr e /\ msg = read_err ++ e) \/
+          (exists d e, read_file f = inl d /\ load l f d = Some e /\ msg = parse_err ++ e)).
+Proof.
+  intros flagRules flagE read_file load l msg Hne H. rewrite gen_new_engine_tail_is_spec in H. inversion H as [H'].
+  exact (rules_first_failure_ends_the_load read_file load gen_e_text flagRules flagE l msg Hne H').
+Qed.
+Print Assumptions C19_first_failure_ends_the_load.
+
+(* -e alone: ONE text is loaded, under the name `e`: the fixed frame (up to white space)
+   `package gorules import ".../dsl" func e(m dsl.Matcher) {` <the flag, verbatim> `.Report("$$") }`;
+   the engine's error is returned as it is; neither flag is an error *)
+Theorem C19_e_rule_text :
+  e_text_ok gen_e_text
+  /\ (forall flagE read_file load, flagE <> [] -> load [] e_name (gen_e_text flagE) = None ->
+        gen_new_engine_tail [] flagE read_file load = Ok (NEDone [(e_name, gen_e_text flagE)]))
+  /\ (forall flagE read_file load m, flagE <> [] -> load [] e_name (gen_e_text flagE) = Some m ->
+        gen_new_engine_tail [] flagE read_file load = Ok (NEFail [] m))
+  /\ (forall read_file load, gen_new_engine_tail [] [] read_file load = Ok (NEFail [] both_empty)).
+Proof.
+  split; [exact gen_e_text_ok|]. split; [|split].
+  - intros. rewrite gen_new_engine_tail_is_spec. f_equal. now apply e_rule_loaded_alone.
+  - intros flagE read_file load m Hne Hl. rewrite gen_new_engine_tail_is_spec. f_equal. unfold new_engine_spec. cbn [bytes_eqb negb].
+    destruct (bytes_eqb flagE []) eqn:E; [apply bytes_eqb_eq in E; contradiction|]. cbn [negb]. now rewrite Hl.
+  - intros. rewrite gen_new_engine_tail_is_spec. reflexivity.
+Qed.
+Print Assumptions C19_e_rule_text.
+
+(* ... and through the cached engine: when newEngine fails, the first pass of the process returns `load rules: ` + that
+   message and every later pass returns nothing *)
+Theorem C19_new_engine_failure_reaches_first_pass :
+  forall flagRules flagE read_file load l msg pl p rest,
+    gen_new_engine_tail flagRules flagE read_file load = Ok (NEFail l msg) ->
+    pi_load p = ne_load_outcome (NEFail l msg) 0%N ->
+    run_passes prep gen_report_cb pl g_init (p :: rest) = PErr (load_rules_prefix ++ msg) :: map (fun _ => PDiags []) rest.
+Proof.
+  intros flagRules flagE read_file load l msg pl p rest _ Hp.
+  rewrite (adapter_relays prep gen_prep_is_spec gen_report_cb gen_report_cb_ok). rewrite Hp. reflexivity.
+Qed.
+Print Assumptions C19_new_engine_failure_reaches_first_pass.
+
 (* non-vacuity: concrete, non-trivial instances *)
 Example c19_report :
   let r := {| rd_rule_info := {| ri_line := 12; ri_group := {| g_name := [103]; g_filename := [47;120;47;114;46;103;111] |} |};
@@ -146,3 +213,13 @@ Example c19_schedule :
   /\ map (fun e => (fst (fst (fst e)), snd (fst e))) (gh_hist (c_gh c))
      = [(1%nat, {| pr_engine := None; pr_err := Some [1] |}); (0%nat, {| pr_engine := None; pr_err := None |})].
 Proof. vm_compute. repeat split; reflexivity. Qed.
+
+Example c19_new_engine :
+  let fs := fun f : bytes => if bytes_eqb f [97] then inl [1] else if bytes_eqb f [98] then inl [2] else inr [110;111] in
+  (* -rules " a ,b" *)
+  gen_new_engine_tail [32;97;32;44;98] [120] fs (fun _ _ _ => None) = Ok (NEDone [([97],[1]); ([98],[2])])
+  (* -rules "a,c,b": c cannot be read *)
+  /\ gen_new_engine_tail [97;44;99;44;98] [] fs (fun _ _ _ => None) = Ok (NEFail [([97],[1])] (read_err ++ [110;111]))
+  (* -rules "a,b": b does not load *)
+  /\ gen_new_engine_tail [97;44;98] [] fs (fun _ f _ => if bytes_eqb f [98] then Some [33] else None) = Ok (NEFail [([97],[1])] (parse_err ++ [33])).
+Proof. repeat split; vm_compute; reflexivity. Qed.
